@@ -1,5 +1,38 @@
 /-
-  C04 — depth-bounded creation reaches exactly the bounded language.
+  C04 — depth-bounded creation reaches exactly the grammar's bounded language.
+
+  Full statement (properties.jsonl): "for a grammar with finitely many choices, the set of
+  programs that depth-limited grow creation can produce at maximum depth d is exactly the set of
+  well-typed, refinement-satisfying programs of depth at most d: no valid program is unreachable
+  and no invalid one is reachable ... position-independent grow never leaves the bounded language".
+
+  On the code as it stands "no valid program is unreachable" is FALSE for programs containing an
+  empty list (`C04_grow_complete_witness`, consequence of the C05 finding).  Proved here:
+
+  1. no invalid program is reachable — grow, full, PI-grow, dSGE, every state and fuel
+     (`C04_reachable_in_language_spec`, `C04_grow_sound`, `C04_full_sound`, `C04_pigrow_sound`,
+     `C04_dsge_sound`), and in the form the harness checks, `v.erase ∈ boundedLanguage g d`
+     (`C04_reachable_in_bounded_language`);
+  2. the enumerator `langTy` / `boundedLanguage` (Model/Lang.lean) is sound for every fuel
+     (`C04_language_sound`, `C04_bounded_language_sound`), monotone in the fuel
+     (`C04_language_fuel_mono`), complete whenever the fuel is enough (`C04_language_complete`;
+     `fuelOK` is decidable), enough fuel exists (`C04_language_fuel_exists`) and the fuel of
+     `boundedLanguage` is enough (`C04_bounded_fuel_adequate`): `boundedLanguage g d` is exactly
+     the specification set (`C04_language_exact`, `C04_bounded_language_spec`);
+  3. every program WITHOUT EMPTY LISTS of the bounded language is reachable by grow under some
+     script (`C04_grow_complete_language_partial`, `C04_grow_complete_bounded_partial`,
+     `C04_grow_complete_partial`), hence exactness on those programs (`C04_grow_exact_partial`,
+     `C04_grow_bounded_language_exact_partial`);
+  4. what the depth filter lets through (`C04_reachable_production_fits`), the witness
+     (`C04_grow_complete_witness`), and FullDecider's frontier preference
+     (`C04_full_frontier_partial`).
+
+  NOT proved: "full creation produces exactly the programs all of whose branches end at the
+  maximum depth" (on the pinned tree `FullDecider(d)` ends branches at `d - 1`, DESIGN.md §5).
+
+  Definitions (Lemmas/Language.lean): `fcTy` / `fcGrammar` (finite choice, plain `str` excluded),
+  `fuelOK` (the enumeration is not cut short), `prodsShort`, `levelCost`, `scriptSt`, `Produces` /
+  `Steer` (scripts that steer a computation), `GrowOK`, the grammars `wG`, `exLG`.
 -/
 import GEVerif.Model.Lang
 import GEVerif.Props.C01
@@ -134,6 +167,29 @@ theorem C04_bounded_language_exact (g : Grammar) (hg : grammarWF g = true)
     h.1 h.2.1
   rwa [h.2.2] at this
 
+/-- The fuel of `boundedLanguage` IS enough (so the enumeration is never cut short): under
+`grammarWF` and `prodsShort` (every registered production list is at most as long as the class
+list — true when no production is listed twice, as `register_type` guarantees).  One depth level
+costs at most `2 * specSize + 1 + L * (L + 1)` units (`levelCost`; `L` = number of classes), which
+is at most `(L + 4) * (specSize + 2)`. -/
+theorem C04_bounded_fuel_adequate (g : Grammar) (hg : grammarWF g = true)
+    (hshort : prodsShort g = true) (d n : Nat) :
+    fuelOK g (4 * (d + 2) * (g.spec.classes.length + 4) * (specSize g.spec + 2) + 64) d (.cls n)
+      = true :=
+  boundedFuel_ok g (GWF_of_grammarWF g hg).alts (prodsShort_elim g hshort) d n
+
+/-- Hence `boundedLanguage g d` is EXACTLY the set of well-typed, refinement-satisfying,
+metadata-free programs of the start symbol of depth at most `d`, for every finite-choice
+well-formed analysed grammar and every `d`. -/
+theorem C04_bounded_language_spec (g : Grammar) (hg : grammarWF g = true)
+    (habs : altsAbstract g = true) (hcl : ClosedNodes g.spec g.reg) (hfc : fcGrammar g = true)
+    (hshort : prodsShort g = true) (hstart : Sym.cls g.spec.start ∈ g.reg.allNodes)
+    (d : Nat) (v : Val) :
+    v ∈ boundedLanguage g d ↔
+      (wt g [] (.cls g.spec.start) v = true ∧ v.depth ≤ d ∧ v.erase = v) :=
+  C04_bounded_language_exact g hg habs hcl hfc d hstart
+    (C04_bounded_fuel_adequate g hg hshort d g.spec.start) v
+
 /-- the strict finite-choice predicates imply the model's -/
 theorem C04_fc_finiteChoice (g : Grammar) (h : fcGrammar g = true) : finiteChoice g = true :=
   fcGrammar_finiteChoice g h
@@ -252,6 +308,41 @@ theorem C04_grow_exact_partial (g : Grammar) (hg : grammarWF g = true)
     obtain ⟨fuel, draws, v', s', hrun, hev⟩ := C04_grow_complete_partial g hg habs hcl hfc hfix
       hkeys he d (.cls g.spec.start) rfl rfl hregs v [] hw hne ⟨0, 0⟩ [] (by simpa using hdep)
     exact ⟨fuel, scriptSt draws, s', v', hrun, by rw [hev, her]⟩
+
+/-- The statement the correspondence harness checks, direction "no invalid program is reachable":
+whatever the depth-limited decider (grow, full, PI-grow, dSGE), the fuel and the state, the
+program `random_tree` returns is — metadata erased — a member of `boundedLanguage`. -/
+theorem C04_reachable_in_bounded_language (g : Grammar) (hg : grammarWF g = true)
+    (habs : altsAbstract g = true) (hcl : ClosedNodes g.spec g.reg) (hfc : fcGrammar g = true)
+    (hshort : prodsShort g = true) (hc : distConsistent g = true)
+    (hstart : Sym.cls g.spec.start ∈ g.reg.allNodes)
+    (dec : Decider) (hk : dec.kind.depthLimited = true) (hD : dec.maxDepth < INF)
+    (hv : deciderValid g dec = true) (fuel : Nat) (s s' : SynSt) (v : Val)
+    (h : randomTree g dec fuel s = .ok v s') : v.erase ∈ boundedLanguage g dec.maxDepth := by
+  obtain ⟨hw, hd⟩ := C04_reachable_in_language_spec g dec fuel s s' v hg hc hk hD hv h
+  exact C04_language_complete g hg habs hcl hfc _ dec.maxDepth _ [] v
+    (C04_bounded_fuel_adequate g hg hshort dec.maxDepth g.spec.start) rfl
+    (by intro x hx; simp only [explode, List.mem_singleton] at hx; rw [hx]; exact hstart) hw hd
+
+/-- ... and both directions for grow on the programs without empty lists: such a program is in
+`boundedLanguage g d` IFF grow initialisation at maximum depth `d` can return it (up to
+metadata). -/
+theorem C04_grow_bounded_language_exact_partial (g : Grammar) (hg : grammarWF g = true)
+    (habs : altsAbstract g = true) (hcl : ClosedNodes g.spec g.reg) (hfc : fcGrammar g = true)
+    (hshort : prodsShort g = true)
+    (hfix : isFixpoint g.spec g.reg g.dist = true) (hkeys : keys g.dist = g.reg.allNodes)
+    (he : g.spec.e = 0) (hstart : Sym.cls g.spec.start ∈ g.reg.allNodes)
+    (d : Nat) (hD : d < INF) (hmin : g.minTreeDepth ≤ d) (v : Val) (hne : NoEmptyList v = true) :
+    v ∈ boundedLanguage g d ↔
+      ∃ fuel s s' v', randomTree g ⟨.grow, d⟩ fuel s = .ok v' s' ∧ v'.erase = v := by
+  constructor
+  · intro hv
+    obtain ⟨fuel, draws, v', s', h1, h2⟩ :=
+      C04_grow_complete_bounded_partial g hg habs hcl hfix hkeys he hstart d v hv hne
+    exact ⟨fuel, _, s', v', h1, h2⟩
+  · rintro ⟨fuel, s, s', v', hrun, rfl⟩
+    exact C04_reachable_in_bounded_language g hg habs hcl hfc hshort (fixpoint_consistent g hfix)
+      hstart ⟨.grow, d⟩ rfl hD (by simpa [deciderValid] using hmin) fuel s s' v' hrun
 
 /-- For the analysed grammar of a specification the table hypotheses are theorems (C05). -/
 theorem C04_analyse_table (spec : GrammarSpec) :
@@ -374,7 +465,7 @@ example : grammarWF exLG = true ∧ altsAbstract exLG = true ∧ ClosedNodes exL
     fcGrammar exLG = true ∧ finiteChoice exLG = true ∧
     isFixpoint exLG.spec exLG.reg exLG.dist = true ∧ keys exLG.dist = exLG.reg.allNodes ∧
     exLG.spec.e = 0 ∧ distConsistent exLG = true ∧ Sym.cls exLG.spec.start ∈ exLG.reg.allNodes ∧
-    exLG.minTreeDepth = 1 := by decide
+    exLG.minTreeDepth = 1 ∧ prodsShort exLG = true := by decide
 -- the fuel of `boundedLanguage` is enough at depths 1 and 2: `C04_bounded_language_exact` applies
 example : fuelOK exLG (4 * (1 + 2) * (exLG.spec.classes.length + 4) * (specSize exLG.spec + 2) + 64) 1
     (.cls exLG.spec.start) = true := by decide +kernel
